@@ -238,7 +238,8 @@ fn intersect_format1_feature_map<const RECORD_INTERSECTION: bool>(
     };
     let mut record_it = feature_map.feature_records().iter().peekable();
 
-    let mut cumulative_entry_map_count = 0;
+    // Sums of counts read from the table; wide enough not to overflow.
+    let mut cumulative_entry_map_count: usize = 0;
     let mut largest_tag: Option<Tag> = None;
     loop {
         let record = if let Some(tag_it) = &mut maybe_tag_it {
@@ -248,7 +249,7 @@ fn intersect_format1_feature_map<const RECORD_INTERSECTION: bool>(
             let record = record?;
 
             if *tag > record.feature_tag() {
-                cumulative_entry_map_count += record.entry_map_count().get();
+                cumulative_entry_map_count += record.entry_map_count().get() as usize;
                 record_it.next();
                 continue;
             }
@@ -282,7 +283,7 @@ fn intersect_format1_feature_map<const RECORD_INTERSECTION: bool>(
             if let Some(largest_tag) = largest_tag {
                 if record.feature_tag() <= largest_tag {
                     // Out of order or duplicate tag, skip this record.
-                    cumulative_entry_map_count += record.entry_map_count().get();
+                    cumulative_entry_map_count += record.entry_map_count().get() as usize;
                     continue;
                 }
             }
@@ -294,10 +295,19 @@ fn intersect_format1_feature_map<const RECORD_INTERSECTION: bool>(
         let entry_count = record.entry_map_count().get();
 
         for i in 0..entry_count {
-            let index = i + cumulative_entry_map_count;
-            let byte_index = (index * field_width * 2) as usize;
-            let data = FontData::new(&feature_map.entry_map_data()[byte_index..]);
-            let mapped_entry_index = record.first_new_entry_index().get() + i;
+            let index = i as usize + cumulative_entry_map_count;
+            let byte_index = index * field_width as usize * 2;
+            let data = FontData::new(
+                feature_map
+                    .entry_map_data()
+                    .get(byte_index..)
+                    .ok_or(ReadError::OutOfBounds)?,
+            );
+            let Some(mapped_entry_index) = record.first_new_entry_index().get().checked_add(i)
+            else {
+                // Invalid (beyond any possible entry index), continue on
+                continue;
+            };
             let entry_record = EntryMapRecord::read(data, max_entry_index)?;
             let first = entry_record.first_entry_index().get();
             let last = entry_record.last_entry_index().get();
@@ -321,7 +331,7 @@ fn intersect_format1_feature_map<const RECORD_INTERSECTION: bool>(
             );
         }
 
-        cumulative_entry_map_count += entry_count;
+        cumulative_entry_map_count += entry_count as usize;
     }
 
     Ok(())
